@@ -11,7 +11,26 @@ _NOTE = ("trusted: pyvc's encoding of Python (cross-checked against CPython on a
          "rx's pNFA model of CPython's sre (differentially tested against re.match every run), CPython/stdlib; assumptions S1 (ASCII "
          "meaning of \\d/lower/strip), M1 (exception message text not executed); termination not proved; bounded stand-ins are "
          "reported separately in evidence.coverage.bounded and never counted as proved")
+_RT_NOTE = "; A1 (json.dump with sort_keys/indent is a function of the JSON value, json.load inverts it); the variant forest / per-cell container loops are covered by bounded stand-ins only (not counted as proved)"
 CHECKS = [
+    {"id": "C01", "technique": "contract-based deductive verification: pyvc VCs/SMT on the real section writers/readers (layout, reader mapping, round-trip lemma) + bounded stand-in for the variant forest",
+     "text": "For Compose, BaseProduct and Release sections the real serialize/deserialize are verified path by path: the writer emits exactly the documented key set "
+             "(label+final only together, is_layered only when true), the reader computes the documented function of the document (type default, case-fold, bool coercions), and "
+             "reader(writer(x)) == norm(x) for every valid x. The forest recursion is exercised by random forests through the real dumps/loads (bounded).",
+     "note": _NOTE + _RT_NOTE},
+    {"id": "C02", "technique": "contract-based deductive verification: pyvc VCs/SMT on Image.serialize/deserialize (all 15 attributes) and the compose section + bounded stand-in for the per-cell loops",
+     "text": "Image.serialize is proved to write exactly the 13 documented keys plus unified/additional_variants iff unified, and Image.deserialize(serialize(x)) to restore all 15 "
+             "attributes for every valid image (full-domain symbolic fields); the compose section likewise. Cell placement/sorting loops are covered by random manifests (bounded).",
+     "note": _NOTE + _RT_NOTE},
+    {"id": "C06", "technique": "contract-based deductive verification: pyvc VCs/SMT -- validate() of every flat metadata class proved equivalent to the documented field rules; section writers proved to write only valid objects + bounded one-field-corruption enumeration for containers",
+     "text": "For 15 metadata classes validate() (reflection resolved from the AST and cross-checked against dir()) is proved to return iff the documented field rules hold, to raise only "
+             "TypeError/ValueError and to change nothing; the flat section writers are proved to return only for valid objects and to write nothing on refusal. Nested containers are covered by "
+             "an enumeration of every field position x out-of-domain values through the real dumps() (bounded).",
+     "note": _NOTE + "; nested containers (forest, cells, tree tables) bounded only"},
+    {"id": "C07", "technique": "contract-based deductive verification: pyvc VCs/SMT on Header.version_tuple and the flat section readers (required keys, documented mapping, validity of the loaded object, converse) + bounded one-corruption document enumeration",
+     "text": "version_tuple is proved to raise exactly for malformed versions; each flat reader is proved to return only when the required keys are present and the loaded object is valid, "
+             "and to reject only documents whose mapped fields are invalid. Whole documents (all seven formats) are covered by one-corruption enumeration through the real loads() (bounded).",
+     "note": _NOTE + "; A1/A2 for the file syntax; nested containers bounded only"},
     {"id": "C13", "technique": "contract-based deductive verification: rx automata decision (greedy-parse inclusion) + pyvc VCs/SMT on the real parse_nvra/_check_nevra",
      "text": "For every string of the legal NVRA language (unbounded length) RPM_NVRA_RE, taken from the tree, captures the five parts at the intended "
              "spans (decided exactly by the rx back end); the bodies of parse_nvra and Rpms._check_nevra are verified path by path against "
